@@ -288,6 +288,12 @@ let next_fold r = match next r with "-" -> None | x -> Some (n_of_string x)
 let elems_of_moc q w d l =
   match moc_cells_o q w d l with Some c -> elems_of_cells c | None -> raise (Parse_error "cells-fuel")
 
+let ferr_name = function
+  | FIo -> "Io" | FUnexpectedKeyword -> "UnexpectedKeyword" | FValueIndicatorNotFound -> "ValueIndicatorNotFound"
+  | FUnexpectedValue -> "UnexpectedValue" | FUintValueNotFound -> "UintValueNotFound" | FStringValueNotFound -> "StringValueNotFound"
+  | FWrongUintValue -> "WrongUintValue" | FMissingKeyword -> "MissingKeyword" | FUncompatibleKeywordContent -> "UncompatibleKeywordContent"
+  | FUnexpectedDepth -> "UnexpectedDepth" | FCustom -> "Custom" | FFuel -> "FUEL-EXHAUSTED"
+
 (* ---------- dispatch ---------- *)
 let handle (r : reader) : unit =
   match next r with
@@ -536,11 +542,13 @@ let handle (r : reader) : unit =
            out_n w; out_n d1; out_n d2;
            (match dt with DRanges l -> out_ranges l | DCells l -> out_ranges l
                        | DSt x -> out_int (List.length x); List.iter (fun (t, sp) -> out_ranges t; out_ranges sp) x | DSt29 -> ())
-       | FErr e -> out_s ("ERR " ^ (match e with
-           | FIo -> "Io" | FUnexpectedKeyword -> "UnexpectedKeyword" | FValueIndicatorNotFound -> "ValueIndicatorNotFound"
-           | FUnexpectedValue -> "UnexpectedValue" | FUintValueNotFound -> "UintValueNotFound" | FStringValueNotFound -> "StringValueNotFound"
-           | FWrongUintValue -> "WrongUintValue" | FMissingKeyword -> "MissingKeyword" | FUncompatibleKeywordContent -> "UncompatibleKeywordContent"
-           | FUnexpectedDepth -> "UnexpectedDepth" | FCustom -> "Custom" | FFuel -> "FUEL-EXHAUSTED")))
+       | FErr e -> out_s ("ERR " ^ (ferr_name e)))
+  | "MOMR" ->
+      (* MOMR hex -> the multi-order-map reader: MOCORDER and the rows (uniq, bits of the density), or the error kind *)
+      let s = bytes_of_hex (next r) in
+      (match mom_read s with
+       | MomOk (d, rows) -> out_s "OK"; out_n d; out_ranges rows
+       | MomErr e -> out_s ("ERR " ^ ferr_name e))
   | "FITSW2" ->
       (* FITSW2 w dt ds n (tranges sranges)* -> the whole file rangemoc2d_to_fits_ivoa writes *)
       let w = next_n r in
